@@ -44,7 +44,11 @@ CONTRACTS.append(Contract(
         "and ext_call_arg('cfe', 0, 0) is raised_by('_render'))",
     ]}},
     ghost={'externals': EXT, 'harness': ('bounded.render_harness', 'render_raising'),
-           'search': {'generator': ('bounded.render_harness', 'gen_exceptions')}},
+           'search': {'generator': ('bounded.render_harness', 'gen_exceptions')},
+           # stated against the real code only (nested explicit render() calls through one call site):
+           # "followed by the enclosing template/macro call sites from innermost to outermost" -- one
+           # per level, also when the levels' records are equal
+           'concrete_raises': {'*': ["call_sites_complete()"]}},
     serves=["C12"]))
 
 
